@@ -51,11 +51,6 @@ func init() {
 
 // exact returns a copy whose capacity equals its length: Go slice expressions are checked against
 // the capacity, the model's against the length.
-func exact(b []byte) []byte {
-	c := make([]byte, len(b))
-	copy(c, b)
-	return c
-}
 
 
 // ---- header tokens -------------------------------------------------------------------------
